@@ -722,6 +722,8 @@ namespace occa {
       }
 
       push();
+      // Skip the opening /* since its * can't close the comment: /*/ is still open
+      fp.start += 2;
 
       bool finishedComment = false;
       while (!finishedComment && *fp.start != '\0') {
